@@ -28,6 +28,8 @@ impl Default for CleanMarkerRecord {
 pub struct CleanMarkerStore {
     path: String,
     store: RwLock<HashMap<String, CleanMarkerRecord>>,
+    /// set once the owning instance has flushed and shut down: nothing may write the file afterwards
+    closed: AtomicBool,
 }
 
 impl CleanMarkerStore {
@@ -57,6 +59,7 @@ impl CleanMarkerStore {
         Ok(Self {
             path: path.to_string_lossy().into_owned(),
             store: RwLock::new(map),
+            closed: AtomicBool::new(false),
         })
     }
 
@@ -75,6 +78,11 @@ impl CleanMarkerStore {
             .store
             .write()
             .map_err(|_| std::io::Error::new(std::io::ErrorKind::Other, "store lock poisoned"))?;
+        // A persister pass that was delayed past the shutdown of its instance must not write: the
+        // file may by now belong to a later instance on the same directory.
+        if self.closed.load(Ordering::Acquire) {
+            return Ok(());
+        }
         for (topic, record) in updates {
             // Generations only grow. Two writers exist (the background persister and the flush at
             // shutdown): a snapshot taken earlier must never replace a newer record.
@@ -86,6 +94,12 @@ impl CleanMarkerStore {
             }
         }
         Self::persist_map(&self.path, &guard)
+    }
+
+    /// Called after the final flush of the owning instance; waits for a write in progress.
+    pub(crate) fn close(&self) {
+        let _guard = self.store.write();
+        self.closed.store(true, Ordering::Release);
     }
 
     fn persist_map(path: &str, map: &HashMap<String, CleanMarkerRecord>) -> std::io::Result<()> {
@@ -306,6 +320,7 @@ impl TopicCleanTracker {
         if let Err(err) = self.store.persist_updates(&snapshot) {
             debug_print!("[clean] persist on drop failed: {}", err);
         }
+        self.store.close();
     }
 }
 
